@@ -1898,6 +1898,15 @@ static void get_user_data (interactive_t* ip, io_event_t* evt) {
     default:
       /* No protocol overhead - use full buffer */
       text_space = MAX_TEXT - ip->text_end - 1;
+      if (text_space == 0)
+        {
+          /* A full buffer without a newline: discard the over-long line
+           * (a zero-length recv() would be mistaken for EOF).
+           */
+          ip->text_start = 0;
+          ip->text_end = 0;
+          text_space = MAX_TEXT - 1;
+        }
       break;
     }
 
@@ -2015,10 +2024,13 @@ static void get_user_data (interactive_t* ip, io_event_t* evt) {
         case PORT_ASCII:
           {
             char *nl, *str;
-            char *p = ip->text + ip->text_start;
+            char *p;
+            object_t *ob = ip->ob;
 
-            memcpy (p, buf, num_bytes);
-            ip->text_end = ip->text_start + num_bytes;
+            /* append after the partial line (if any) kept from earlier reads */
+            memcpy (ip->text + ip->text_end, buf, num_bytes);
+            ip->text_end += num_bytes;
+            p = ip->text + ip->text_start;
             while ((nl = memchr (p, '\n', ip->text_end - ip->text_start)))
               {
                 ip->text_start = (nl + 1) - ip->text;
@@ -2026,11 +2038,15 @@ static void get_user_data (interactive_t* ip, io_event_t* evt) {
                 *nl = 0;
                 str = new_string (nl - p, "PORT_ASCII");
                 memcpy (str, p, nl - p + 1);
-                if (!(ip->ob->flags & O_DESTRUCTED))
+                if (!(ob->flags & O_DESTRUCTED))
                   {
                     push_malloced_string (str);
-                    apply (APPLY_PROCESS_INPUT, ip->ob, 1, ORIGIN_DRIVER);
+                    apply (APPLY_PROCESS_INPUT, ob, 1, ORIGIN_DRIVER);
+                    if (!IP_VALID (ip, ob))
+                      return;	/* process_input() got rid of the connection */
                   }
+                else
+                  FREE_MSTR (str);
                 if (ip->text_start == ip->text_end)
                   {
                     ip->text_start = 0;
@@ -2041,6 +2057,13 @@ static void get_user_data (interactive_t* ip, io_event_t* evt) {
                   {
                     p = nl + 1;
                   }
+              }
+            if (ip->text_start > 0)
+              {
+                /* keep the unfinished line at the start of the buffer */
+                memmove (ip->text, ip->text + ip->text_start, ip->text_end - ip->text_start);
+                ip->text_end -= ip->text_start;
+                ip->text_start = 0;
               }
             break;
           }
